@@ -414,7 +414,7 @@ def _labels(case, out):
 def oracle(case, out):
     k = case["kind"]
     if out.get("err") in ("IndexError", "KeyError"):
-        return "unrelated-error: %s at %s: %s" % (out["err"], out.get("stage"), out.get("msg"))
+        return "raised-for-defined-forecast: %s at %s: %s" % (out["err"], out.get("stage"), out.get("msg"))
     if k == "naive":
         wl_ = _resolve(case)
         if wl_ == "reject":
